@@ -164,7 +164,10 @@ func (c *scriptConn) Read(p []byte) (int, error) {
 func (c *scriptConn) Write(p []byte) (int, error) {
 	b := append([]byte(nil), p...)
 	inst := 65535
-	if len(b) >= 20 {
+	c.h.mu.Lock()
+	indicating := c.h.indicating
+	c.h.mu.Unlock()
+	if len(b) >= 20 && !indicating { // the write of an indication belongs to no transaction, whatever ID it carries
 		if i, ok := c.h.instOfTID(b[8:20]); ok {
 			inst = i
 		} else if i, ok := c.h.instOfRaw(b); ok {
@@ -207,6 +210,7 @@ func (c *scriptConn) Close() error {
 
 type clientHarness struct {
 	inAppStop bool // the application is stopping a transaction through the shared agent (op 12)
+	indicating bool // Indicate is running (op 2): its write belongs to no transaction
 	o        *out
 	line     string
 	mu       sync.Mutex
@@ -558,7 +562,17 @@ func execClientHistory(o *out, f [][]int) []int {
 			h.record(90000, []int{5, retcCode(serr)})
 		case 2:
 			m := &stun.Message{TransactionID: clientTID(0), Raw: append([]byte(nil), bytesOf(op[1:])...)}
-			h.record(90000, []int{5, retcCode(c.Indicate(m))})
+			if len(m.Raw) >= 20 {
+				copy(m.TransactionID[:], m.Raw[8:20]) // an indication may carry any ID, that of a transaction in flight included
+			}
+			h.mu.Lock()
+			h.indicating = true
+			h.mu.Unlock()
+			ierr := c.Indicate(m)
+			h.mu.Lock()
+			h.indicating = false
+			h.mu.Unlock()
+			h.record(90000, []int{5, retcCode(ierr)})
 		case 3:
 			if !closed {
 				lastDatagram = bytesOf(op[1:])
@@ -936,10 +950,19 @@ func (g *clientGen) history(n int) []string {
 				fs = append(fs, fNums(7, r.intn(g.insts+1)))
 			}
 		case 13:
-			g.rto = r.pick([]int{10, 100, 1000})
+			g.rto = r.pick([]int{10, 100, 1000, 0})
 			fs = append(fs, fNums(6, g.rto))
 		case 14:
-			fs = append(fs, withBytes([]int{2}, stunMsg(r, 0, 20)))
+			if len(g.live) > 0 && r.chance(1, 2) {
+				// an indication that carries the ID of a transaction in flight, and whose write fails half of the time:
+				// nothing happens to that transaction
+				if r.chance(1, 2) {
+					fs = append(fs, fNums(7, 65535))
+				}
+				fs = append(fs, withBytes([]int{2}, stunMsg(r, g.live[r.intn(len(g.live))], 20)))
+			} else {
+				fs = append(fs, withBytes([]int{2}, stunMsg(r, 0, 20)))
+			}
 		default:
 			switch r.intn(6) {
 			case 0:
@@ -948,6 +971,9 @@ func (g *clientGen) history(n int) []string {
 			case 1:
 				// Close racing the events of a collector tick (advance to around a deadline)
 				g.now += r.rangeIn(1, 9)*g.rto/2 + r.pick([]int{-1, 0, 1, 1})
+				if g.now < 0 {
+					g.now = 0
+				}
 				fs = append(fs, fNums(9, g.now))
 				g.closed = true
 			case 2:
@@ -1060,6 +1086,7 @@ func runC10(o *out, thorough bool, r *rng, _ []string) map[string]interface{} {
 	retransmitRaceScenarios(o, r, 40)
 	agentRefusesRetransmissionScenarios(o, r, 20)
 	moreClientScenarios(o, r)
+	closeErrorScenarios(o, r, 32)
 	return map[string]interface{}{"exhaustive_part": fmt.Sprintf("every history of <= %d operations over {Start(id1), Start(id2), response(id1), response(id2), garbage, tick past the deadline, fail next write of instance 0 / 1, Close} x 2 configurations: %d histories", depth, cnt)}
 }
 
